@@ -38,7 +38,7 @@ def run_function(src, function, include_dirs=(), flags=(), timeout=900):
         if st.get('stepType') == 'assignment' and st.get('assignmentType') == 'variable':
             lhs = st.get('lhs', '')
             v = st.get('value', {})
-            if 'nondet' in json.dumps(st.get('sourceLocation', {})) or re.match(r'^(x|y|a|b|c|n|m|v|rv|f|rf|rc|tag|rtag|payload|some|err|inl|inb|in\[|ret_\w+)', lhs):
+            if 'nondet' in json.dumps(st.get('sourceLocation', {})) or re.match(r'^(x|y|a|b|c|h|n|m|v|rv|f|rf|rc|tag|rtag|payload|some|err|inl|inb|in\[|ret_\w+)', lhs):
                 vals.append('%s=%s' % (lhs, v.get('data', v.get('name', '?'))))
     res['trace'] = ', '.join(vals[:40])
     return res
